@@ -10,15 +10,18 @@
 (* completes the session from there ("xfin").                              *)
 EXTENDS MC_CodecOps, Json
 VARIABLE hist
+CONSTANT HistD      \* longest exported decoder behaviour
 GenInit == XInit /\ hist = <<obs>>
 GenNext == XNext /\ hist' = Append(hist, obs')
 GenSpec == GenInit /\ [][GenNext]_<<allvars, hist>>
-BoundGE == BoundE /\ Len(hist) <= 16
-BoundGA == Len(hist) <= 12
-BoundGD == BoundD /\ Len(hist) <= 9
+BoundG == IF mode = "enc" THEN BoundE /\ Len(hist) <= 16
+          ELSE IF mode = "arr" THEN Len(hist) <= 12
+          ELSE IF mode = "size" THEN BoundD /\ Len(hist) <= 14
+          ELSE BoundD /\ Len(hist) <= HistD
 SkelE == <<K, Rest, DropN(out, pre), run, code, cap - Len(out) - code, st, marks, pre, cons, left>>
 SkelD == <<K, DropN(stream, fedn), DropN(reg, pos), curr - pos, dlen, dmsg, dcode, cpos, last = "nobuf", lost, fs = fedn,
            last = "reset">>
+Skel  == <<mode, IF IsDec THEN SkelD ELSE SkelE>>
 \* what the whole finished output must be when the driver completes the message in progress
 FinExp ==
   IF st' = "dead" \/ (st' = "run" /\ ~XAdmits(K', msg')) THEN [ret |-> "err"]
@@ -31,7 +34,8 @@ FinExp ==
        IN [ret |-> "ok", out |-> o,
            decs |-> IF IsText(K') \/ IsRaw(K') THEN "any"
                     ELSE [i \in 1..Len(fin) |-> IF K'.cmd THEN CmdHeader \o fin[i] ELSE fin[i]]]
-EmitE == PrintT(<<"BEHAV", ToJson([h |-> hist', fin |-> FinExp])>>)
+EmitE == PrintT(<<"BEHAV", ToJson([p |-> mode, h |-> hist', fin |-> FinExp])>>)
 \* decoder side: the plain feed / call / peek / grant behaviours are replayed by C03 already
-EmitD == (\E i \in 1..Len(hist') : hist'[i].a \in {"size", "reset"}) => PrintT(<<"BEHAV", ToJson([h |-> hist'])>>)
+EmitD == (\E i \in 1..Len(hist') : hist'[i].a \in {"size", "reset"}) => PrintT(<<"BEHAV", ToJson([p |-> mode, h |-> hist'])>>)
+Emit  == IF IsDec THEN EmitD ELSE EmitE
 =============================================================================
